@@ -19,7 +19,7 @@ ASSUMPTIONS = ["NumPy is the definition of broadcasting/indexing semantics; PyTo
                "float32 tolerance 2e-5*scale, float64 1e-12*scale for arithmetic; bit-exact for data movement"]
 
 
-def _cmp(name, got, want, dt, exact, ctx, tol64=1e-12):
+def _cmp(name, got, want, dt, exact, ctx, tol64=1e-12, tol32=2e-5):
     got = np.asarray(got)
     want = np.asarray(want, dtype=np.float64)
     if tuple(got.shape) != tuple(want.shape):
@@ -33,7 +33,7 @@ def _cmp(name, got, want, dt, exact, ctx, tol64=1e-12):
             i = np.argwhere(g64 != w)[0]
             raise Violation("value", f"{name}: value differs at {i.tolist()}: got {g64[tuple(i)]!r} want {w[tuple(i)]!r}; {ctx}")
         return
-    tol = tol64 if np.dtype(dt) == np.float64 else 2e-5
+    tol = tol64 if np.dtype(dt) == np.float64 else tol32
     scale = max(1.0, float(np.abs(want).max()))
     err = np.abs(g64 - want)
     if not np.all(np.isfinite(g64)) or float(err.max()) > tol * scale:
